@@ -139,6 +139,8 @@ async def _drive(case: dict[str, Any], out: dict[str, Any]) -> None:
             # (for engines of engines the internal receivers see the lead of one stream over the slowest)
             if nxt[i] >= N or len(in_rx[i]._q) >= 45 or nxt[i] - min(nxt) >= 45:  # noqa: SLF001
                 break
+            if rx is None and case["kind"] != "flat" and nxt[i] - case["first"][i] >= 44:
+                break  # (the not yet started outer engine's internal receivers hold 50 samples)
             k = nxt[i]
             await senders[i].send(Sample(fm.T0 + timedelta(seconds=k), Quantity(float((k + 1) * B ** i))))
             nxt[i] += 1
